@@ -10,7 +10,7 @@ import vlib
 META = {
     "level": "model_checking",
     "text": "Relay.tla models the A-B-C line for both transports the way the code does it (libp2p: validator captured at push time, run later, SetConsensusHandler = unregister then register, subscription before the first validator; DaisyChain: sequential loop, atomic swap, nil handler passes through). TLC checks exhaustively that the design without the three named deviations satisfies RelayedOnlyIfAccepted / NoHandlerNeverRelays for every message class (kind x decodability x feedback incl. unspecified, reject-and-disconnect and out-of-range) and every interleaving of publish / deliver / validate / swap steps, and that with the as-is deviations every unaccepted relay is one of them. The TLC-exported feedback table (all 256 values) is compared with exchangeFeedbackToLibp2p; every (slot, class) pair is run through the real validator functions; the exported behaviours are replayed on three real libp2p hosts on loopback (gaters keep A and C apart; a control run proves A->B->C relays) and on the real DaisyChainNetwork, with startup-window and handler-swap stress phases; every recorded execution is validated by RelayTrace.tla (each arrival at C must be explained by an Accepted verdict of B).",
-    "note": "libp2p itself is the environment (trusted: it forwards a message iff every registered validator accepts, and forwards unvalidated when none is registered -- the control and the window runs observe exactly that). Absence of a relay is judged after a bounded wait. Without the verifGate hook the swap window is reached by a stress loop, not deterministically.",
+    "note": "Trace validation goes past a verdict given by a handler B cannot have had installed (RelayTrace.tla STALE VERDICT) so that the arrival it causes is reached and reported. libp2p itself is the environment (trusted: it forwards a message iff every registered validator accepts, and forwards unvalidated when none is registered -- the control and the window runs observe exactly that). Absence of a relay is judged after a bounded wait. Without the verifGate hook the swap window is reached by a stress loop, not deterministically.",
     "technique": "TLA+ spec + TLC exhaustive (small) + behaviour/table replay and trace validation against the real libp2p and in-memory transports",
     "design_ref": "DESIGN.md section 5, C20",
 }
